@@ -76,6 +76,44 @@ let run (fn : string) (bs : coq_N list) (arg : int) : string * string =
   | "avc.ParseSPSNALUnit" -> show1 sps_string (c16_parse_sps (arg land 1 = 1) bs)
   | "avc.ParsePPSNALUnit" -> show1 pps_string (c16_parse_pps (chroma_lookup !ctx_sps) bs)
   | "avc.ParseSliceHeader" -> show1 slice_string (c16_parse_slice (sps_lookup !ctx_sps) (pps_lookup !ctx_pps) bs)
+  (* ---- stage 3: SEI / AAC / Annex B (wrappers of C16AuxModel, models of C17 / C18 / C14) *)
+  | "sei.ParseCEA608" ->
+    show1 (fun ((f1, f2), _) -> hex_of_bytes f1 ^ ";" ^ hex_of_bytes f2) (C16AuxModel.parse_cea608_p bs)
+  | "sei.DecodeUserDataRegisteredSEI" -> show1 (fun _ -> "") (C16AuxModel.decode_registered_p bs)
+  | "sei.ExtractCEA608sei" -> show1 (fun _ -> "") (C16AuxModel.extract_cea608_p bs)
+  | "sei.DecodeUserDataUnregisteredSEI" -> show1 (fun _ -> "") (C16AuxModel.decode_unregistered_p bs)
+  | "sei.DecodeMasteringDisplayColourVolumeSEI" -> show1 (fun _ -> "") (C16AuxModel.mdcv_decode_p bs)
+  | "sei.DecodeContentLightLevelInformationSEI" -> show1 (fun _ -> "") (C16AuxModel.cll_decode_p bs)
+  | "sei.DecodeTimeCodeSEI" -> show1 (fun cs -> string_of_int (L.length cs)) (C17TypedModel.tc_decode bs)
+  | "sei.DecodePicTimingAvcSEIHRD" ->
+    let fld k = n_of_int ((arg lsr k) land 31) in
+    let ext = if arg land 1 = 1
+      then Some { C17TypedModel.h_cpb_delay = N0; h_dpb_delay = N0; h_init_len1 = N0; h_cpb_len1 = fld 1; h_dpb_len1 = fld 6 }
+      else None in
+    show1 (fun m -> string_of_int (L.length m.C17TypedModel.p_clocks)) (C17TypedModel.pt_decode ext (fld 11) bs)
+  | "sei.ExtractSEIData" ->
+    (match fst (C16AuxModel.extract_sei_data_go bs) with
+     | C17Spec.XOk l -> ("ok", S.concat "," (L.map (fun (ty, pl) -> hex_of_n ty ^ ":" ^ string_of_int (L.length pl)) l))
+     | C17Spec.XMissing _ -> ("err", "")
+     | C17Spec.XErr -> ("err", "")
+     | C17Spec.XFuel -> ("hang", ""))
+  | "aac.DecodeADTSHeader" ->
+    let ((r, _), _) = C16AuxModel.decode_adts_t bs in
+    show1 (fun (h, off) -> S.concat "," [hex_of_z off; hex_of_n h.C18Model.h_hlen; hex_of_n h.C18Model.h_plen; hex_of_n h.C18Model.h_sfi]) r
+  | "aac.DecodeAudioSpecificConfig" ->
+    show1 (fun a -> S.concat "," [hex_of_n a.C18Model.a_ot; hex_of_n a.C18Model.a_chan; hex_of_z a.C18Model.a_freq]) (C18Model.decode_asc bs)
+  | "avc.ExtractNalusFromByteStream" -> show1 nalus_string (C14Model.extract_nalus_from_byte_stream bs)
+  | "avc.ConvertByteStreamToNaluSample" -> show1 hex_of_bytes (C14Model.to_nalu_sample bs)
+  | "avc.GetFirstAVCVideoNALUFromByteStream" -> show1 hex_of_bytes (C14Model.avc_get_first_video_nalu bs)
+  | "avc.ExtractNalusOfTypeFromByteStream" ->
+    show1 nalus_string (C14Model.avc_extract_nalus_of_type (n_of_int (arg lsr 1)) (arg land 1 = 1) bs)
+  | "hevc.ExtractNalusOfTypeFromByteStream" ->
+    show1 nalus_string (C14Model.hevc_extract_nalus_of_type (n_of_int (arg lsr 1)) (arg land 1 = 1) bs)
+  | "avc.GetParameterSetsFromByteStream" ->
+    show1 (fun ((_, s), p) -> nalus_string s ^ ";" ^ nalus_string p) (C14Model.avc_get_parameter_sets_from_byte_stream bs)
+  | "hevc.GetParameterSetsFromByteStream" ->
+    show1 (fun ((v, s), p) -> nalus_string v ^ ";" ^ nalus_string s ^ ";" ^ nalus_string p)
+      (C14Model.hevc_get_parameter_sets_from_byte_stream bs)
   | "avc.GetSliceTypeFromNALU" -> show1 hex_of_n (get_slice_type bs)
   | "avc.ParsePSAndSlice" ->
     let (a, b, rest) = split3 bs in
